@@ -94,3 +94,111 @@ let () =
             (n_of_int (int_of_string off)) (n_of_int (int_of_string len)) in
         Printf.sprintf "%d/%s" (int_of_n rn) (match re with Model.RNone -> "nil" | Model.REOF -> "eof" | Model.ROther -> "other")
     | _ -> failwith "c14.readat args")
+
+(* ---- the copy path (Sink/Copy.v) ---- *)
+
+(* item = p:<kind>:<mech>:<pieces> | c:<kind>:<pieces> | s:<pieces> | f:<mech>
+   pieces as in c14.layout; copied and staged items are registered with their
+   full length available, c14.copy overrides the available length per item *)
+let copy_layouts : (int, Model.n Model.item list * int) Hashtbl.t = Hashtbl.create 16
+
+let parse_items (s : string) =
+  let ctr = ref 0 in
+  let pieces ps =
+    List.map (fun p ->
+      let is_str = (p.[0] = 's') in
+      let len = int_of_string (String.sub p 1 (String.length p - 1)) in
+      let o = !ctr in
+      ctr := o + len;
+      (is_str, List.init len (fun i -> byte_at (o + i)))) (if ps = "_" then [] else String.split_on_char '.' ps) in
+  let plen ps = List.fold_left (fun a (_, d) -> a + List.length d) 0 ps in
+  let items = List.map (fun it ->
+    match String.split_on_char ':' it with
+    | ["p"; k; m; ps] ->
+        Model.IPlain { Model.st_kind = kinds.(int_of_string k); st_mech = mech_of_int (int_of_string m); st_pieces = pieces ps }
+    | ["c"; k; ps] -> let ps = pieces ps in Model.ICopied (kinds.(int_of_string k), ps, n_of_int (plen ps))
+    | ["s"; ps] -> let ps = pieces ps in Model.IStage (ps, n_of_int (plen ps))
+    | ["f"; m] -> Model.IFlushDeferred (mech_of_int (int_of_string m))
+    | _ -> failwith "item") (String.split_on_char ';' s) in
+  (items, !ctr)
+
+(* spec = idx:avail+idx:avail... ("_" = none): the available length of the items at these indexes *)
+let apply_short (items : Model.n Model.item list) (spec : string) =
+  if spec = "_" || spec = "" then items else begin
+    let ov = List.map (fun x -> match String.split_on_char ':' x with
+      | [i; a] -> (int_of_string i, n_of_int (int_of_string a))
+      | _ -> failwith "short spec") (String.split_on_char '+' spec) in
+    List.mapi (fun i it ->
+      match List.assoc_opt i ov with
+      | None -> it
+      | Some a ->
+          (match it with
+           | Model.ICopied (k, ps, _) -> Model.ICopied (k, ps, a)
+           | Model.IStage (ps, _) -> Model.IStage (ps, a)
+           | _ -> failwith "short spec designates an item without a source")) items
+  end
+
+let tok_of_cerr = function
+  | Model.CNil -> "nil" | Model.CSrc -> "unexpected-eof" | Model.CDst e -> tok_of_err e
+
+let copy_verdict cnt items buf fk k =
+  let bufsize = if buf <= 0 then None else Some (n_of_int buf) in
+  let (((e, i), pos), complete) = Model.copy_verdict cnt (fault_of k fk) bufsize items in
+  Printf.sprintf "%s/%d/%d/%s" (tok_of_cerr e) (int_of_nat i) (int_of_n pos) (tok_of_bool complete)
+
+let ranges_tok rs =
+  if rs = [] then "_" else String.concat "," (List.map (fun (o, l) -> Printf.sprintf "%d:%d" (int_of_n o) (int_of_n l)) rs)
+
+(* row = start:size:cioff:cilen:oioff:oilen:bloomoff:bloomhdr:h.b.h.b... *)
+let parse_table size fs b rows =
+  let n s = n_of_int (int_of_string s) in
+  let row r = match String.split_on_char ':' r with
+    | [st; sz; cio; cil; oio; oil; bo; bh; pg] ->
+        let rec pairs = function
+          | h :: b :: rest -> (n h, n b) :: pairs rest
+          | [] -> []
+          | _ -> failwith "pages" in
+        { Model.ck_start = n st; ck_size = n sz;
+          ck_pages = pairs (if pg = "_" then [] else String.split_on_char '.' pg);
+          ck_ci = (n cio, n cil); ck_oi = (n oio, n oil); ck_bloom = (n bo, n bh) }
+    | _ -> failwith "row" in
+  { Model.ft_size = n size; ft_footer = n fs; ft_bufsize = n b;
+    ft_rows = List.map row (if rows = "_" then [] else String.split_on_char ';' rows) }
+
+let () =
+  register "c14.copylayout" (function
+    | [id; s] ->
+        let (items, total) = parse_items s in
+        Hashtbl.replace copy_layouts (int_of_string id) (items, total);
+        Printf.sprintf "ok %d %d" (List.length items) total
+    | _ -> failwith "c14.copylayout args");
+  register "c14.copydrop" (function
+    | [id] -> Hashtbl.remove copy_layouts (int_of_string id); "ok"
+    | _ -> failwith "c14.copydrop args");
+  (* c14.copy <cnt 1|0> <layout> <bufsize> <none|err|short> <k,k,...> <short spec>  ->  err/item/pos/complete,... *)
+  register "c14.copy" (function
+    | [cnt; lay; buf; fk; ks; spec] ->
+        let (items, _) = try Hashtbl.find copy_layouts (int_of_string lay) with Not_found -> failwith "unknown copy layout" in
+        let items = apply_short items spec in
+        let buf = int_of_string buf and cnt = bool_of_tok cnt in
+        String.concat "," (List.map (fun k -> copy_verdict cnt items buf fk (int_of_string k)) (split_on ',' ks))
+    | _ -> failwith "c14.copy args");
+  (* c14.copyshort <cnt> <layout> <bufsize> <spec;spec;...>: destination without fault  ->  verdict,... *)
+  register "c14.copyshort" (function
+    | [cnt; lay; buf; specs] ->
+        let (items, _) = try Hashtbl.find copy_layouts (int_of_string lay) with Not_found -> failwith "unknown copy layout" in
+        let buf = int_of_string buf and cnt = bool_of_tok cnt in
+        String.concat "," (List.map (fun spec -> copy_verdict cnt (apply_short items spec) buf "none" 0) (String.split_on_char ';' specs))
+    | _ -> failwith "c14.copyshort args");
+  (* c14.demand <size> <footer length> <bufsize> <rows>  ->  open reads | reads of chunk 0 | reads of chunk 1 ... *)
+  register "c14.demand" (function
+    | [size; fs; b; rows] ->
+        let t = parse_table size fs b rows in
+        String.concat "|" (ranges_tok (Model.open_demand t) :: List.map (fun c -> ranges_tok (Model.chunk_reads t.Model.ft_bufsize c)) t.Model.ft_rows)
+    | _ -> failwith "c14.demand args");
+  (* c14.declared <size> <footer length> <bufsize> <rows>  ->  declared ranges | needed ranges *)
+  register "c14.declared" (function
+    | [size; fs; b; rows] ->
+        let t = parse_table size fs b rows in
+        ranges_tok (Model.declared_ranges t) ^ "|" ^ ranges_tok (Model.needed_ranges t)
+    | _ -> failwith "c14.declared args")
